@@ -105,7 +105,7 @@ func main() {
 	if *stOnly {
 		bad := 0
 		for _, id := range ids {
-			st := runSelfTest(*repo, *selftest, id)
+			st := runSelfTest(*repo, *selftest, id, *knownP)
 			fmt.Printf("%s selftest: run=%v skipped=%v fired=%v silent=%v failures=%v\n", id, st.Summary["mutants_run"], st.Summary["skipped"], st.Summary["reported_as_expected"], st.Summary["silent_as_expected"], len(st.Failures))
 			if ds, ok := st.Summary["details"].([]map[string]any); ok {
 				for _, d := range ds {
@@ -181,7 +181,7 @@ func main() {
 		}
 		extra := map[string]any{}
 		if *tier == "thorough" && *selftest != "" {
-			st := runSelfTest(*repo, *selftest, id)
+			st := runSelfTest(*repo, *selftest, id, *knownP)
 			extra["selftest"] = st.Summary
 			if len(st.Failures) > 0 {
 				r := newRun(nil, id, *tier)
